@@ -238,7 +238,33 @@ def run(res):
             res.broken_ties.append(("correspondence TokenStore: model and implementation differ on %d case(s)" % len(bad),
                                     {"t0": cases[idx][0], "script": script_of(cases[idx]), "observed": r[4],
                                      "differing_ops": r[1][:10], "token_equality_pattern_equal": r[0]}))
+    if not res.violations:
+        handler_part(res)
     return res.finish("proof", LEVEL_NOTE)
+
+
+def handler_part(res):
+    """The handler clauses (which IP the token is bound to, storing gated on the token check, what get_peers returns): the
+    real serving node receives get_peers / announce_peer traffic with right, foreign, altered, wrong-length and stale tokens;
+    servercheck decides the discipline from the datagrams alone; every handled event is replayed through the Coq model."""
+    import nodegen
+    import nodeprop
+    import servercheck
+    vlib.ensure_model(nodeprop.RUN_TARGETS)
+
+    def gen(rng, consts, i):
+        return nodegen.gen_server(rng, consts, many_peers=(i % 3 == 2), long_times=(i % 2 == 0))
+
+    def checker(sc, meta, log, tr):
+        return servercheck.check(sc, log, tr)
+
+    nodeprop.explore(
+        res, PROP, gen, checker, 12, 200,
+        "server scenarios (see C05): one real node, 2-6 sources, get_peers and announce_peer with the right token / another "
+        "source's / bit-flipped / 19- and 21-byte / zero / empty tokens, explicit or implied ports, time steps up to 30 min, up to "
+        "210 announcers per info-hash; checker: tokens accepted only if issued to that IP <= 30 min ago and never refused within "
+        "10 min; get_peers values = live acknowledged same-family contacts (unless cut at the datagram cap)",
+        [], part="handler_part")
 
 
 def replay(path):
